@@ -64,7 +64,8 @@ def _dual_case(c):
         return _lst("(%d%%nat, %d%%nat, %s)" % (r, cc, _q(v)) for r, cc, v in t)
     return ("{| dc_truncate := %s; dc_elements := %s; dc_element_edges := %s; dc_edge_neighbors := %s; "
             "dc_vertex_neighbors := %s; dc_p1_support := %s; dc_p1_g2l := %s; dc_dp0_support := %s; "
-            "dc_dual0 := %s; dc_dual1 := %s; dc_dual0_shape := %s; dc_dual1_shape := %s |}" % (
+            "dc_dual0 := %s; dc_dual1 := %s; dc_dual0_shape := %s; dc_dual1_shape := %s; dc_dual0_support := %s; "
+            "dc_dual1_support := %s |}" % (
                 "true" if c["truncate"] else "false", _nat_ll(c["elements"]), _nat_ll(c["element_edges"]),
                 _nat_ll(c["edge_neighbors"]), _nat_ll(c["vertex_neighbors"]),
                 _lst("%d%%nat" % x for x in c["p1_support_elements"]),
@@ -73,7 +74,9 @@ def _dual_case(c):
                 ("Some " + triples(c["dual0"])) if "dual0" in c else "None",
                 ("Some " + triples(c["dual1"])) if "dual1" in c else "None",
                 "(%d%%nat, %d%%nat)" % tuple(c.get("dual0_shape", [0, 0])),
-                "(%d%%nat, %d%%nat)" % tuple(c.get("dual1_shape", [0, 0]))))
+                "(%d%%nat, %d%%nat)" % tuple(c.get("dual1_shape", [0, 0])),
+                _lst("%d%%nat" % x for x in c.get("dual0_support", [])),
+                _lst("%d%%nat" % x for x in c.get("dual1_support", []))))
 
 
 def correspond(ctx):
@@ -159,6 +162,8 @@ def _collect(ctx, res):
         if r is None:
             continue
         ctx.search_info["evaluations"] += r.get("search_evals", 0)
+        for part, tb in r.get("crashed", {}).items():
+            ctx.problem("harness", "harness part %s crashed" % part, tb)
         ctx.search_info["notes"].append({"worst": r.get("worst", {}), "timing_s": r.get("timing", {}),
                                          "grids": [g["name"] for g in r.get("grids", [])]})
         seen = {}
